@@ -63,8 +63,11 @@ def run(ctx):
         "(t=manifest / t=deep-size / t=deep-stats GETs no longer exist in this code base)",
         "re-registering a handle that is still present is not documented: its lifetime is left open (loose) until a request sets it",
     ]
-    consts = dict(Handles='{"h1", "h2"}', KindsMC='{"manifest"}' if q else '{"manifest", "deep-stats"}', Dirs='{"A"}',
-                  Retains="{600}", Advances="{600, 86400, 345600}", MaxOps=5 if q else 6, MaxStarts=2 if q else 3)
+    # quick: one handle name (used again after it is gone / while present), 5 steps: every lifetime rule incl. "or the total time
+    # consumed by the operation" (clock step of 5 days); thorough: two names, 6 steps, two kinds
+    consts = dict(Handles='{"h1"}' if q else '{"h1", "h2"}', KindsMC='{"manifest"}' if q else '{"manifest", "deep-stats"}',
+                  Dirs='{"A"}', Retains="{600}", Advances="{600, 86400, 345600, 432000}", MaxOps=5 if q else 6,
+                  MaxStarts=2 if q else 3)
     ctx.constants["MC"] = consts
     ctx.mc("frontends/MCOpHandles", mc_cfg(consts), name="MC OpHandles", timeout=3000)
 
